@@ -125,6 +125,9 @@ def encode_date(decoded_date: date | None, bit_length: int = 16) -> int:
     # Calculate the number of days since the start date
     days_since_epoch = (decoded_date - start_date).days
 
+    # the largest code is "not available"; a date outside the field must not wrap into another date
+    if not (0 <= days_since_epoch <= (1 << bit_length) - 2):
+        raise ValueError(f"Date {decoded_date} does not fit a {bit_length} bit field")
     return days_since_epoch
 
 
